@@ -1,6 +1,18 @@
 """Property -> packs, bounded stand-ins, native replay harness, notes (read by pyvc.check)."""
 
 REGISTRY = {
+    "C17": dict(
+        packs=["c17"],
+        level="proof",
+        replay=dict(script="replay/c17.py", args=[], timeout=600),
+        bounded=[dict(name="config-scoping-small-scope", script="replay/c17.py", args=[],
+                      bound="36 pairs of nested settings x {normal, exception} + failed constructor + one foreign thread; 66 context x explicit combinations")],
+        trusted=["threading.local attributes are per-thread; the with statement calls __exit__ (CPython)"],
+        assumptions=["BACKENDS holds the four built-in backends; register_parallel_backend / dask registration not modelled",
+                     "parallel_config.__init__ sees _check_backend through its contract (returns a value or raises ValueError/AssertionError; unset stays unset)",
+                     "LIFO: two-level instance proved as a lemma over the contracts; depth n follows by induction from the same two facts"],
+        undecided_clauses=["thread-locality is a frame condition (only attribute `config` of the module's threading.local is written) plus the CPython assumption; no schedule is explored"],
+    ),
     "C15": dict(
         packs=["c15"],
         level="proof",
@@ -36,6 +48,16 @@ NOT_APPLICABLE = {
 }
 
 MANIFEST_TEXT = {
+    "C17": dict(
+        text="Proof over the finite decision space the code distinguishes plus symbolic setting values: _get_config_param implements "
+             "explicit > context > default for every key; parallel_config.__init__ installs given-or-enclosing value per key, saves the previous "
+             "config, writes only the thread-local `config`, and leaves it untouched when it raises; unregister/__exit__ restore exactly the saved "
+             "config and do not swallow exceptions; a LIFO lemma over those contracts; _get_active_backend and Parallel.__init__ (all prefer/require/"
+             "backend combinations incl. third-party backends with missing attributes): resolved require='sharedmem' always yields a shared-memory "
+             "backend or ValueError, prefer never overrides an explicit backend, n_jobs/verbose/max_nbytes/mmap_mode/temp_folder obey the priority.",
+        note="Assumed: threading.local semantics; BACKENDS = built-ins. One fix commit (context require ignored with explicit backend). Known finding K6 "
+             "(context n_jobs replaced by 1 on thread fallback) is reported on every run. Native enumeration is bounded and not counted.",
+    ),
     "C15": dict(
         text="Loop-free integer contracts proved for all integers n_jobs and all cpu counts >= 1: every effective_n_jobs "
              "(PoolManagerMixin, Sequential, Multiprocessing, Loky) returns n_jobs when positive, max(cpus+1+n_jobs, 1) when negative, "
